@@ -196,7 +196,7 @@ PlayStart(m, n) ==
   IF ~MacHas(m.mac, n) THEN m
   ELSE LET x == Expand(m.p, m.mac, n, {n})
            b == IF x.ok THEN ConstPace * (x.n + 1) + 10 ELSE ConstPace * (6 * m.p.max + 20) + 10
-       IN [m EXCEPT !.replaying = TRUE, !.repLate = @ \/ x.late, !.budget = OMin(@ + b, 4000)]
+       IN [m EXCEPT !.replaying = TRUE, !.repLate = @ \/ x.late, !.budget = OMin(@ + b, 400)]
 
 \* an input event arrives: what output it announces
 PlayArrive(m, isPress, c) ==
@@ -237,7 +237,7 @@ MonIn(m, r) ==
                 ELSE m.und + m.pend + 1 + (IF m.replaying \/ m.mode = "lost" THEN 1 ELSE 0)
         th == ThOf(m.p, r.c)
     IN [m3 EXCEPT !.und = IF th = <<>> THEN @ ELSE IF isPress THEN th[1].T + 2 ELSE OMin(@, 2),
-                  !.stall = IF th = <<>> THEN @ ELSE 2 * th[1].T + 4,
+                  !.stall = IF th = <<>> THEN @ ELSE th[1].T + 2,
                   !.phys = IF isPress THEN @ \cup {r.c} ELSE @ \ {r.c},
                   !.pend = OMin(@ + 1, 40),
                   !.ctlp = IF isCtlPress THEN OMax(wait, m.ctlp) ELSE m.ctlp,
@@ -259,16 +259,18 @@ MonTick(m, out, idle, cb) ==
   IF m.err # "" THEN m
   ELSE
     LET o == Eff(out, m.down)
-        und == IF m.und > 0 THEN m.und - 1 ELSE 0
-        stall == IF m.stall > 0 THEN m.stall - 1 ELSE 0
+        \* (an idle report settles both bounds)
+        und == IF idle THEN 0 ELSE IF m.und > 0 THEN m.und - 1 ELSE 0
+        stall == IF idle THEN 0 ELSE IF m.stall > 0 THEN m.stall - 1 ELSE 0
         pend == IF m.und > 0 THEN m.pend ELSE IF m.pend > 0 THEN m.pend - 1 ELSE 0
         ctlp == IF idle THEN 0 ELSE IF m.ctlp > 0 THEN m.ctlp - 1 ELSE 0
         \* an idle report settles whether kanata records: it does not
         lateSeen == m.lateSeen /\ ~idle
         rec0 == IF idle /\ m.lateSeen THEN <<>> ELSE m.rec
-        budget == IF m.replaying /\ m.budget > 0 THEN m.budget - 1 ELSE m.budget
         \* calm: idle, or what stands for it while a recording is switched on
         recOn == rec0 # <<>> /\ ~lateSeen
+        \* the time budget of a replay the monitor does not follow is only needed while recording (otherwise idle tells)
+        budget == IF m.replaying /\ m.budget > 0 /\ (m.mode = "sync" \/ recOn) THEN m.budget - 1 ELSE m.budget
         \* the expected replay is over: kanata idle, or (recording) its full time budget has passed
         repDone == ~m.replaying \/ idle \/ (recOn /\ m.budget = 0)
         calm == idle \/ (recOn /\ pend = 0 /\ und = 0 /\ stall = 0 /\ ctlp = 0 /\ repDone)
